@@ -20,7 +20,14 @@ def settable_family(ctx, rng):
                                                  {"name": 5, "kind": ("C", ("type", 0))}, {"name": 6, "kind": ("E", ("type", 0))}]}
     op = lambda incl, defaults=(), edges=(), app=None: {"incl": incl, "defaults": list(defaults), "edges": list(edges), "appends": app}
     forms = [("include", [0]), ("include", [0, 5]), ("include", None), ("exclude", [5]), ("exclude", [0]), ("exclude", None), ("exclude", [])]
-    for threaded, fdep, editor, form in itertools.product([False, True], ["none", "own", "group"], [False, True], forms):
+    combos = [(t, f, e, fo, None) for t, f, e, fo in itertools.product([False, True], ["none", "own", "group"], [False, True], forms)]
+    # owner makes `kids` settable while the editor's exclude list leaves it out (and the other way round), the editor
+    # declared before or after the owner: what ONE action may set is settable
+    for t, f in ((False, "none"), (True, "own"), (True, "group")):
+        for owner_form in (("include", [0, 5]), ("exclude", [0]), ("exclude", None), ("exclude", [])):
+            for first in ("owner", "editor"):
+                combos.append((t, f, True, ("exclude", [5]), (owner_form, first)))
+    for threaded, fdep, editor, form, special in combos:
         if not threaded and fdep == "group":
             continue
         ctx_ref = ("group", 12) if threaded else None
@@ -46,18 +53,25 @@ def settable_family(ctx, rng):
         elif not threaded:
             fdep_ref = ("checkpoint", 1)
         owner_form = form if not editor else ("include", [0])
-        act(1, 1, fdep_ref, op(owner_form))
-        if editor:
+        if special is not None:
+            owner_form = special[0]
+        if special is not None and special[1] == "editor":
             s["checkpoints"].append({"id": 3, "alias": 503, "gate": None, "deps": [cmp_(1, 3)], "ctx": ctx_ref})
-            act(3, 1, ("checkpoint", 3), op(form))
+            act(3, 1, ("checkpoint", 3), op(form))          # declared before the owner (it still depends on it)
+            act(1, 1, fdep_ref, op(owner_form))
+        else:
+            act(1, 1, fdep_ref, op(owner_form))
+            if editor:
+                s["checkpoints"].append({"id": 3, "alias": 503, "gate": None, "deps": [cmp_(1, 3)], "ctx": ctx_ref})
+                act(3, 1, ("checkpoint", 3), op(form))
         # appender a = action 2, depends on f, appends to promise 1 . kids
         prom(2)
         s["checkpoints"].append({"id": 4, "alias": 504, "gate": None, "deps": [cmp_(1, 4)], "ctx": ctx_ref})
         act(2, 2, ("checkpoint", 4), op(("include", [0]), app=(("promise", 1), [5])))
-        r = {"spelling": rng.choice(["id", "alias", "mixed"]), "shuffle": rng.random() < 0.5, "descriptive": False, "seed": rng.randrange(1 << 30)}
+        r = {"spelling": rng.choice(["id", "alias", "mixed"]), "shuffle": (rng.random() < 0.5) and special is None, "descriptive": False, "seed": rng.randrange(1 << 30)}
         doc = S.render(s, random.Random(r["seed"]), r["spelling"], r["shuffle"], False)
-        items.append(engine.Item(s, doc, "settable", mutator="threaded=%s owner_dep=%s editor=%s form=%s" % (threaded, fdep, editor, form),
-                                 owner="C07", desc="appends vs settable", render=r, group="settable|%s|%s|%s|%s" % (threaded, fdep, editor, form)))
+        items.append(engine.Item(s, doc, "settable", mutator="threaded=%s owner_dep=%s editor=%s form=%s%s" % (threaded, fdep, editor, form, "" if special is None else " owner_form=%s declared_first=%s" % special),
+                                 owner="C07", desc="appends vs settable", render=r, group="settable|%s|%s|%s|%s|%s" % (threaded, fdep, editor, form, special)))
     return items
 
 
